@@ -139,8 +139,10 @@ class C30(SchedProp):
                  'whole removal loop + trace correspondence with the real Scheduler + a before/after judge on the '
                  'observed traces')
     trusted = [
-        'the matched ids are a Python set: the order in which _remove_matched_tasks walks them is taken from the '
-        'implementation as a hint (the theorems hold for every order)',
+        'the matched ids, and the graph children of each matched id, are Python sets: the orders in which '
+        '_remove_matched_tasks walks them are taken from the implementation as hints (the theorems hold for every order)',
+        'behaviour flags of code paths the model shares with C28 / C29 (group trigger: anyOutput, triggerUnpooled; '
+        '_load_historical_outputs: dbRowPerFlowSet) are probed from the live code like the two flags of this property',
         'jobs of proxies removed by the command are killed: the generated schedule delivers no further message of theirs',
         'SQLite semantics of UPDATE OR REPLACE on the primary key (name, cycle, flow_nums) and the order in which the rows '
         'of one task come back (flow_nums text, binary collation)',
